@@ -949,7 +949,10 @@ def run_c10(chk):
                 tdis.append((t, e, x, z))
             # a name test on the namespace axis names a PREFIX: renaming prefixes legitimately changes its result
             if i < nb and "xml:lang" not in e and "namespace::" not in e:
-                if frd[i] != x:
+                # (canonical paths name an attribute with its prefix: compare modulo the renamed prefixes)
+                import re as _re
+                unpre = lambda v: _re.sub(r"/@[A-Za-z0-9_.-]+%3A", "/@", v) if v.startswith("N:") else v
+                if unpre(frd[i]) != unpre(x):
                     mfail.append((t, e, "result changes when the document's prefixes are renamed consistently (p->pp, q->qq, z->w)",
                                   x + "  /  " + frd[i]))
                 if fre[i] != x:
